@@ -4,7 +4,7 @@
 // [num_rows, rows_valid_end) kept fresh by just_push_row (first file), and only if it was produced by the same lexeme.
 #[cfg(kani)]
 mod verif_kani_rowreuse {
-    //@@ span parser/src/earley/parser.rs reuse_guard :: !self.scratch.definitive && self.num_rows() < self.rows_valid_end ::: == lexeme_idx
+    //@@ span parser/src/earley/parser.rs reuse_guard :: @after let scan_res = if ::: == lexeme_idx
 
     struct ShimScratch {
         definitive: bool,
